@@ -18,6 +18,8 @@ IR (tuples, JSON-able):
           | ("Block", body)                     anonymous <%block> ... </%block>: a closure run in place
           | ("CallBody", "f()", body)           <%call expr="f()"> body </%call>: the body is a closure handed to f as caller.body
           | ("NDef", name, sig, body)           a <%def> written inside another def's body (declaration only)
+          | ("NsDef", ns, name, sig, body)      <%namespace name="ns"><%def name="name(sig)"> body </%def></%namespace> in the main body
+                                                (declaration only; called as ns.name(); its body reads nothing of the enclosing scope)
 
 Two printers read it:
 
@@ -178,6 +180,12 @@ def mako_source(prog, sp):
             out.append('<%%def name="%s(%s)">' % (s[1], s[2]) + nl)
             body(s[3])
             out.append("</%def>" + nl)
+        elif k == "NsDef":
+            out.append('<%%namespace name="%s">' % s[1] + nl)
+            out.append('<%%def name="%s(%s)">' % (s[2], s[3]) + nl)
+            body(s[4])
+            out.append("</%def>" + nl)
+            out.append("</%namespace>" + nl)
         else:
             raise ValueError(k)
 
@@ -230,6 +238,8 @@ def count_lines(prog):
                 body(s[2])
             elif k == "NDef":
                 body(s[3])
+            elif k == "NsDef":
+                body(s[4])
 
     for _, _, b in prog.get("defs", ()):
         body(b)
@@ -338,6 +348,17 @@ def ref_source(prog, enable_loop, nl="\n"):
             emit(ind + 1, "__o(%r)" % nl)
             body(s[3], ind + 1)
             emit(ind + 1, "return ''")
+            emit(ind, "__o(%r)" % nl)
+        elif k == "NsDef":
+            emit(ind, "def __nsdef_%s(%s):" % (s[2], s[3]))
+            if enable_loop:
+                emit(ind + 1, "__R = __RefLoopStack()")
+                emit(ind + 1, "loop = __R.top()")
+            emit(ind + 1, "__o(%r)" % nl)
+            body(s[4], ind + 1)
+            emit(ind + 1, "return ''")
+            emit(ind, "%s = type('__NS', (), {})()" % s[1])
+            emit(ind, "%s.%s = __nsdef_%s" % (s[1], s[2], s[2]))
             emit(ind, "__o(%r)" % nl)
         else:
             raise ValueError(k)
@@ -787,6 +808,9 @@ def kinds(prog):
             elif k == "NDef":
                 ks.add("nested-def")
                 body(s[3], d + 1)
+            elif k == "NsDef":
+                ks.add("namespace-def")
+                body(s[4], d + 1)
 
     for _, _, b in prog.get("defs", ()):
         ks.add("def")
@@ -837,6 +861,9 @@ def uses_loop(prog):
                     return True
             elif k == "NDef":
                 if body(s[3]):
+                    return True
+            elif k == "NsDef":
+                if body(s[4]):
                     return True
         return False
 
